@@ -211,7 +211,44 @@ fn exec_typed<T: Elem, N: ArrayLength>(case: &Case, acc: &mut Acc) -> Result<(),
     Ok(())
 }
 
+/// 2^48 one-byte elements: a legal boxed type that no allocator can serve.
+pub const HUGE: usize = 1 << 48;
+
+/// Boxed targets of a length that cannot be allocated, from a source whose size hint already rules the length out: the answer
+/// is LengthError / the documented panic, and it has to come *without* asking the allocator for 256 TiB first (which would end
+/// the process through the allocation-error path instead).
+fn huge_boxed(case: &Case, acc: &mut Acc) -> Result<(), String> {
+    type H = generic_array::typenum::U281474976710656;
+    registry::reset();
+    let Source::Script(hint, _) = case.source else { return Ok(()) };
+    if !hint.rules_out(case.c, HUGE) || case.target < 2 {
+        return Ok(());
+    }
+    let items: Vec<u8> = (0..case.c).map(|i| i as u8).collect();
+    let (src, probe) = ScriptIter::new(items, vec![], hint, false);
+    if case.target == 2 {
+        if GenericArray::<u8, H>::try_boxed_from_iter(src).is_ok() {
+            return Err(format!("Ok for N = 2^48 from a source of {} items", case.c));
+        }
+    } else {
+        match engine::catch(move || drop(src.collect::<Box<GenericArray<u8, H>>>())) {
+            Ok(()) => return Err(format!("boxed collect returned for N = 2^48 from a source of {} items", case.c)),
+            Err(c) if c.msg.contains(&format!("expected {HUGE} items")) => {}
+            Err(c) => return Err(format!("boxed collect for N = 2^48 panicked with an unexpected message: {}", c.msg)),
+        }
+    }
+    if probe.yielded.get() > case.c {
+        return Err("more items pulled than the source holds".into());
+    }
+    acc.count(true, case);
+    acc.class("boxed_length_that_cannot_be_allocated_hint_rules_it_out");
+    Ok(())
+}
+
 pub fn exec(case: &Case, acc: &mut Acc) -> Result<(), String> {
+    if case.n == HUGE {
+        return huge_boxed(case, acc);
+    }
     if case.zst {
         with_lat!(case.n, N, exec_typed::<TrackedZst, N>(case, acc))
     } else {
@@ -229,6 +266,13 @@ fn counts_for(n: usize) -> Vec<usize> {
 
 fn grid() -> Vec<Case> {
     let mut out = vec![];
+    for c in 0..4usize {
+        for hint in [Hint::Exact, Hint::Lower0, Hint::Loose, Hint::LieLow, Hint::LieHigh, Hint::Fixed(7), Hint::Fixed(HUGE - 1), Hint::Fixed(HUGE + 1), Hint::Inverted(HUGE + 1, HUGE), Hint::Countdown(HUGE - 1), Hint::CountdownExact(1000)] {
+            for target in [2u8, 3] {
+                out.push(Case { n: HUGE, c, source: Source::Script(hint, 0), target, by_ref: false, base: 0, panic_at: None, zst: false });
+            }
+        }
+    }
     for &n in harness::lens::LAT {
         for c in counts_for(n) {
             let mut sources = vec![];
@@ -322,7 +366,7 @@ pub fn main() {
         Report {
             prop: PROP,
             level: "exploration",
-            rule: "case = (N in the 36-length lattice (to 4096), 24-byte or zero-sized drop-tracked elements, produced count c (every 0..=N+3 for N<=12, else 0,1,N-1,N,N+1,N+3), source, target, by-value or &mut). Sources: a scripted iterator with 18 size_hint behaviours (upper bound usize::MAX, exact, lower 0, no upper, unknown, loose, lying low, lying high, claiming exactly N / N+1 / N-1 whatever it holds, inconsistent hints whose lower bound exceeds the upper bound, and hints that count down from a claimed total N or N+1 as items are pulled and so report nothing-left after N items whatever the source still holds), fused or yielding again after its first None, and std sources (Range, vec::IntoIter, Chain, Take, Filter) that reach the TrustedLen specialisations. Targets: try_from_iter, from_iter/collect, try_boxed_from_iter, boxed collect. For N<=12 additionally a panic injected into every next() call index of the scripted source. Grid enumerated completely, plus proptest-random cases. \
+            rule: "case = (N in the 36-length lattice (to 4096), 24-byte or zero-sized drop-tracked elements, produced count c (every 0..=N+3 for N<=12, else 0,1,N-1,N,N+1,N+3), source, target, by-value or &mut). Sources: a scripted iterator with 18 size_hint behaviours (upper bound usize::MAX, exact, lower 0, no upper, unknown, loose, lying low, lying high, claiming exactly N / N+1 / N-1 whatever it holds, inconsistent hints whose lower bound exceeds the upper bound, and hints that count down from a claimed total N or N+1 as items are pulled and so report nothing-left after N items whatever the source still holds), fused or yielding again after its first None, and std sources (Range, vec::IntoIter, Chain, Take, Filter) that reach the TrustedLen specialisations. Targets: try_from_iter, from_iter/collect, try_boxed_from_iter, boxed collect; the two boxed targets also for N = 2^48 one-byte elements (which cannot be allocated) from sources whose hint rules that length out - LengthError / the documented panic must come back without an allocation attempt. For N<=12 additionally a panic injected into every next() call index of the scripted source. Grid enumerated completely, plus proptest-random cases. \
                    Oracle computed from the script alone: Ok => c = N and element i is the i-th item; truthful and c = N => Ok; c != N or a hint that rules N out => LengthError / 'expected N items' panic; at most N+1 items pulled; never polled after None; every pulled item dropped exactly once on failure and un-pulled items still with the source. \
                    non-trivial = c != N, or an untruthful / inexact hint, or a non-fused source; distinct = distinct case tuples",
             exhaustive: false,
